@@ -52,6 +52,9 @@ func genFlows(g *Rng, tier string) *Plan {
 	for i := 0; i < nd; i++ {
 		k.Deploys = append(k.Deploys, mwDeployConf{HTTPS: g.Bool(0.7), Host: fmt.Sprintf("sp%d.example.com", i), EC: g.Bool(0.25), KeyIdx: 1 + 2*i, // rsa1 / rsa3 (rsa2 is Mallory's)
 			Binding: Pick(g, "", "", "post"), CustomRS: g.Bool(0.2), CookieName: Pick(g, "", "", "sess")})
+		if g.Bool(0.5) {
+			mwNoise(g, &k.Deploys[i])
+		}
 	}
 	p := &Plan{Knobs: mustJSON(k)}
 	var steps []flowStep
@@ -445,7 +448,7 @@ func execFlows(t *testing.T, p *Plan) *Result {
 				wantLoc := ""
 				switch {
 				case relay == "":
-					wantLoc = "/" // configured default (samlsp.Options.DefaultRedirectURI unset -> "/")
+					wantLoc = d.conf.defaultRedirect() // the configured default (samlsp.Options.DefaultRedirectURI; unset -> "/")
 				default:
 					for fi, fl := range flows {
 						if fl.sp == r.sp && fl.index == relay {
